@@ -73,7 +73,10 @@ class Atom(object):
             while fileobj.tell() < self.offset + self.length:
                 self.children.append(Atom(fileobj, level + 1))
         else:
-            fileobj.seek(self.offset + self.length, 0)
+            try:
+                fileobj.seek(self.offset + self.length, 0)
+            except OverflowError:
+                raise AtomError("atom length out of range")
 
     @property
     def datalength(self):
